@@ -24,6 +24,10 @@ CLAIMED = {
         technique="runtime monitoring with fault injection: crash-point enumeration over the victim's durable writes of recorded scenarios (virtual crash at the n-th write, rebuild from the model disk), with the commitment/revocation/ordering monitors kept alive across the restart",
         text="Every selected crash point of every base scenario is an independent deterministic re-execution up to the victim's n-th durable write, followed by a rebuild from the most recently persisted (or an older) ChannelManager and the durable monitors with in-flight writes independently lost or kept, optionally a second crash during recovery, then reconnection and quiescence. Judged: reading back succeeds; a manager serialized at the stop is never declared outdated; resumed channels never error or close and all their later commitments match the reference model fed with the pre-crash history; the revocation and ordering automata (C05/C09 rules) keep their pre-crash state. Quick: 64 scenarios x <=12 points + 800 random-restart runs; thorough: 480 scenarios fully enumerated (<=400 points each) + 24k runs.",
         note=WORLD_NOTE + " On-chain resolution of channels closed by a stale restart is judged by the C07 machinery, not here."),
+    "C13": dict(category="exploration", design_ref="DESIGN.md §6 C13",
+        technique="runtime monitoring: generated message values and byte-level mutants pushed through the real codecs under panic capture, with round-trip / prefix-exactness / TLV-rule oracles",
+        text="For every wire message type, generated values (all optional TLVs toggled, boundary-length vectors, all address and feature encodings) are encoded, decoded and compared; the type dispatcher is checked for identity; every strict prefix must fail or re-encode to exactly itself; every single-byte mutant must fail or be stable under re-encoding; unknown odd TLVs must be ignored, unknown even / non-minimal / over-long ones rejected; arbitrary strings never panic. Quick ~2*10^4 values / ~10^7 mutants; thorough 50x.",
+        note="Trusted: the library's PartialEq on message structs; Debug rendering for dispatcher comparison. A slice-bounded reader makes reading past the frame impossible by construction; reading past an inner declared length shows up as a round-trip or prefix-exactness failure."),
     "C16": dict(
         category="exploration",
         technique="runtime monitoring: independent route-validity oracle over find_route on generated graphs (reference-model monitor), reachability oracle for completeness in the slack regime",
